@@ -80,6 +80,7 @@ def _table_case(draw):
         G=draw(st.sampled_from([11, 2, 3, 101, 201, 50])),
         outlier_prob=draw(st.sampled_from([0.0, 0.001, 0.3, 0.0])),
         clusters=clusters,
+        cluster_style=draw(st.sampled_from(["minimal", "pyclone-vi"])),
     )
 
 
@@ -146,7 +147,7 @@ def _table(case):
     density, prec, G = case["density"], case["precision"], case["G"]
     tags = dict(density=density, kind="table", clustered=case["clusters"] is not None)
     try:
-        data, samples = po.load(rows, SCRATCH, density=density, precision=prec, G=G, outlier_prob=case["outlier_prob"], clusters=case["clusters"])
+        data, samples = po.load(rows, SCRATCH, density=density, precision=prec, G=G, outlier_prob=case["outlier_prob"], clusters=case["clusters"], cluster_style=case.get("cluster_style", "minimal"))
     except Exception as e:
         raise crash_violation("load", e, tags)
     muts = sorted({r["mutation_id"] for r in rows})
@@ -219,6 +220,8 @@ def _table(case):
             classes.add("cluster-size>1")
     if p > 0:
         classes.add("outlier_prob>0")
+    if case["clusters"] is not None and case.get("cluster_style") == "pyclone-vi" and len(exp_samples) > 1:
+        classes.add("cluster-file:one-row-per-mutation-and-sample")
     if classes_numeric and len(exp_samples) > 1:
         classes.add("numeric-sample-ids")
     return Outcome(nontrivial=nontriv, classes=tuple(sorted(classes)), info=dict(rows=rows[:3], n_rows=len(rows), density=density, precision=prec, G=G, clusters=case["clusters"]), weight=len(rows))
